@@ -111,6 +111,10 @@ func NewBoard(
 	if err != nil {
 		return nil, err
 	}
+	// the parent must be an existing class (group board), not a vacated slot or an ordinary board
+	if clsBoard.Brdname[0] == 0 || !clsBoard.BrdAttr.HasPerm(ptttype.BRD_GROUPBOARD) {
+		return nil, ptttype.ErrInvalidBid
+	}
 
 	isGroupOp := groupOp(user, uid, clsBoard)
 	if !user.UserLevel.HasUserPerm(ptttype.PERM_BOARD) && !isGroupOp {
